@@ -69,7 +69,7 @@ DEVIATIONS: t.Dict[str, t.List[t.Any]] = {
     "dc.server": ["lookup"],  # (client side) no server argument: the DC is found through the SRV lookup (answered by the DNS seam with this DC)
     "dc.caller": ["in-loop"],  # (client side) the SYNC api is called from code that runs inside an event loop (a coroutine, a web handler, a notebook cell)  # the DC (and its endpoint mapper) does not implement bind time feature negotiation
     "dc.eph": ["zlead"],
-    "dc.cache": ["given"],  # (client side) the caller passes a KeyCache of its own - a new, empty one: the conversation is the same  # (client side, DH public-key mode) an ephemeral private key for which the shared secret Z = Y^x mod p begins with a zero octet  # a child domain / second tree: the forest name differs from the domain name (also in length)
+    "dc.cache": ["given", "warm"],  # (client side) the caller passes a KeyCache of its own - a new, empty one: the conversation is the same  # (client side, DH public-key mode) an ephemeral private key for which the shared secret Z = Y^x mod p begins with a zero octet  # a child domain / second tree: the forest name differs from the domain name (also in length)
 }
 
 
@@ -105,7 +105,7 @@ def root_for(seed: int, h: str, kind: str) -> gkdi.RootKey:
     return seams.make_root(seams.Drbg(("C17", seed, h, kind)), h, "DH" if kind == "seed" else kind)
 
 
-def run_cfg(seed: int, c: Cfg):
+def run_cfg(seed: int, c: Cfg, _cache=None):
     import dpapi_ng
 
     rk = root_for(seed, c.hash, c.kind)
@@ -144,7 +144,11 @@ def run_cfg(seed: int, c: Cfg):
     user, pw = (secctx.NTLM_USER, secctx.NTLM_PASS) if c.sec == "ntlm" else ("u", "p")
     kw = dict(server="dc.verif.test", username=user, password=pw, auth_protocol="ntlm")
     if own_cache:
-        kw["cache"] = dpapi_ng.KeyCache()
+        kw["cache"] = _cache if _cache is not None else dpapi_ng.KeyCache()
+        if own_cache == "warm" and c.kind != "seed" and _cache is None:
+            # the caller's cache has already been through one identical call against an identical DC (a public-key reply leaves nothing in
+            # it that could serve a later call: the measured conversation is the same as on a new cache)
+            run_cfg(seed, c, _cache=kw["cache"])
     if via_lookup:
         del kw["server"]
     ent = seams.Entropy(b"C17")
@@ -170,7 +174,10 @@ def run_cfg(seed: int, c: Cfg):
     if via_lookup:
         dnscm.enter_context(seams.patched(dns.resolver, "resolve", rec_.resolve))
         dnscm.enter_context(seams.patched(dns.asyncresolver, "resolve", rec_.aresolve))
-    with dnscm, transport.network(dc) as hub, cm, seams.entropy(ent) if c.sec == "scripted" else contextlib.nullcontext():
+    # the client's clock agrees with the DC's (the middle of the DC's current L2 interval): a conforming deployment is time-synchronised
+    dc_now = now if c.op == "protect" else (L0, 31, 31)
+    client_clock = seams.clock(((dc_now[0] * 1024) + dc_now[1] * 32 + dc_now[2]) * gkdi.B + gkdi.B // 2)
+    with dnscm, transport.network(dc) as hub, cm, client_clock, seams.entropy(ent) if c.sec == "scripted" else contextlib.nullcontext():
         try:
             if c.op == "unprotect":
                 f = dpapi_ng.ncrypt_unprotect_secret if c.api == "sync" else dpapi_ng.async_ncrypt_unprotect_secret
